@@ -154,9 +154,15 @@ def verify_strat_allocate_proxy(ex, contract, timeout_ms=30000):
     return verify_strat_allocate(ex, contract, timeout_ms=timeout_ms)
 
 
+def _verify_create_child(ex, contract, timeout_ms=30000):
+    from .core_tree import verify_create_child
+
+    return verify_create_child(ex, contract, timeout_ms)
+
+
 def contracts():
     return [
-        (RelationalContract("bt.core.StrategyBase._create_child_if_needed", [("child", "str")], apply_create_child, self_cls="StrategyBase", note="ensures the named child exists; a newly attached lazy child is a flat security with weight 0"), None),
+        (RelationalContract("bt.core.StrategyBase._create_child_if_needed", [("child", "str")], apply_create_child, self_cls="StrategyBase", note="ensures the named child exists; a newly attached lazy child is a flat security with weight 0"), _verify_create_child),
         (RelationalContract("bt.core.StrategyBase.close", [("child", "str"), ("update", "bool")], apply_close, self_cls="StrategyBase", note="modifies the child's subtree, own cash/fees, root.stale"), None),
         (RelationalContract("bt.core.StrategyBase.allocate", [("amount", "float"), ("child", "optstr"), ("update", "bool")], apply_strat_alloc, self_cls="StrategyBase", note="parent debited / self credited once (flow only for self), each child receives amount x weight with update=False; see verify_strat_allocate"), verify_strat_allocate_proxy),
         (RelationalContract("bt.core.StrategyBase.transact", [("q", "float"), ("child", "any"), ("update", "bool")], apply_strat_transact, self_cls="StrategyBase", note="modifies own subtree and the parent's cash"), None),
